@@ -9,6 +9,7 @@ func init() {
 		{Name: "broken-uploads", Weight: 4, Gen: GenC02Broken},
 		{Name: "disk-faults", Weight: 3, Gen: GenC02Disk},
 		{Name: "broken-uploads-every-offset", Weight: 1, Gen: GenC02Exhaustive},
+		{Name: "overlap", Weight: 4, Gen: GenC02Overlap},
 	}
 	Profiles["C03"] = []Profile{{Name: "hostile-paths", Weight: 1, Gen: GenC03}}
 	Profiles["C04"] = []Profile{{Name: "conditional", Weight: 6, Gen: GenC04}, {Name: "dav-passthrough", Weight: 1, Gen: GenC04Passthrough}, {Name: "conditional-memfs", Weight: 3, Gen: GenC04Memfs}}
@@ -26,5 +27,6 @@ func init() {
 		{Name: "disk-error-kinds", Weight: 4, Gen: GenC17Disk},
 		{Name: "hostile-paths", Weight: 2, Gen: GenC03},
 		{Name: "refusals", Weight: 2, Gen: GenC02Refusals},
+		{Name: "overlap", Weight: 2, Gen: GenC02Overlap},
 	}
 }
